@@ -10,7 +10,7 @@ import (
 	"github.com/getkin/kin-openapi/openapi3"
 )
 
-//verif:harness id=C10 tier=quick,thorough witness=end bounds="gorilla/mux-based router over the 5 template families of C09 x servers in {none, /v1, https://h.example:{port}/v1 with default port, {scheme}://h.example with enum} x method in the nine standard methods, empty, lower case, unknown x every request path '/'+ up to 2 bytes over {/,a,{,},%} x URL with or without RawPath and host; documents gated by the real Validate; assertion = no panic"
+//verif:harness id=C10 tier=quick,thorough witness=end bounds="gorilla/mux-based router over the 6 template families of C09 x servers in {none, /v1, https://h.example:{port}/v1 with default port, {scheme}://h.example with enum} x method in the nine standard methods, empty, lower case, unknown x every request path '/'+ up to 2 bytes over {/,a,{,},%} x URL with or without RawPath and host; documents gated by the real Validate; assertion = no panic"
 func verifH_C10_gorilla_router() {
 	fam := verifChoose("family", len(verifFamilies))
 	doc, _ := verifDoc(verifFamilies[fam], 0)
